@@ -378,7 +378,8 @@ Proof.
   intros rs l Hr Hl. unfold wf_gem_layout in Hl.
   apply andb_true_iff in Hl as [Hl L4]. apply andb_true_iff in Hl as [Hl L3]. apply andb_true_iff in Hl as [L1 L2].
   unfold parse_gemfile, render_gemfile. rewrite scan_render.
-  - cbn [fst]. unfold gem_file_lines. rewrite gem_tokens_ok by assumption. reflexivity.
+  - pose proof (gem_tokens_ok rs (ly_secs l) (ly_tail l) None Hr L1 L2) as T. unfold gem_run in T. unfold gem_file_lines.
+    destruct (gem_sections _ None) as [secs|e|]; [|discriminate|discriminate]. exact T.
   - apply lines_ok_combine; [|exact L3]. unfold gem_file_lines. fold (text_lines (gem_secs_lines rs (ly_secs l) ++ flat_map gem_between_lines (ly_tail l))).
     rewrite text_lines_app, gem_secs_lines_text, gem_between_text by assumption. reflexivity.
   - exact L4.
@@ -396,6 +397,14 @@ Qed.
 
 Lemma gemfile_total_lemma : forall s, parse_gemfile s <> Panic.
 Proof.
-  intros s. unfold parse_gemfile, gem_run. pose proof (gem_sections_total (fst (scan_lines s)) None) as T.
-  destruct (gem_sections _ _); congruence.
+  intros s. unfold parse_gemfile. destruct (scan_lines s) as [toks tl]. pose proof (gem_sections_total toks None) as T.
+  destruct (gem_sections toks None); [destruct tl; discriminate|discriminate|congruence].
+Qed.
+
+(* a line of 64 KiB or more is never silently swallowed: the result is an error *)
+Lemma gemfile_long_line_lemma : forall s, snd (scan_lines s) = true -> exists e, parse_gemfile s = Err e.
+Proof.
+  intros s H. unfold parse_gemfile. destruct (scan_lines s) as [toks tl]. cbn [snd] in H. subst tl.
+  pose proof (gem_sections_total toks None) as T.
+  destruct (gem_sections toks None) as [secs|e|]; [exists ETooLong; reflexivity|exists e; reflexivity|congruence].
 Qed.
